@@ -266,3 +266,12 @@ package xlsx
 //@   property C17
 //@   flags pure
 //@   ensures empty_means_no_value: r <==> (c.Type == CellTypeEmpty || c.Value == "")
+
+// ---- C02: an archive member read into memory is at most maxPartSize bytes long (or the read is an error) ----
+//@ func readPart results (data, err)
+//@   property C02
+//@   ensures member_size_is_bounded: !err ==> len(data) <= maxPartSize
+//@ func (*Reader) getFileContent
+//@   property C02
+//@   flags callsites
+//@   callsite io.ReadAll(x) requires members_are_read_through_readPart: false
